@@ -103,6 +103,12 @@ def r2_1(ctx: Ctx, om: ObsModel) -> None:
                 ctx.ok("R2.1", key, fn.loc(next((e.raw for e in T.at(p) if e.raw is not None), None)),
                        f"{m.cls.short}.{vname}: [{dnf_text(dt)}] == space [{dnf_text(ds)}]")
         # the default is what observe returns on the absent branch (checked in C09 R9.4); here: it exists
+        for bname, b, fn_ in (("__init__", m.init_b, m.init_fn), ("space", m.space_b, m.space_fn), ("observe", m.observe_b, m.observe_fn)):
+            for raw, ptxt, loop in (b.overwrites if b is not None else []):
+                ctx.fail("R2.1", ctx.key(fn_, f"keys under {ptxt} accumulate over the loop"), fn_.loc(raw),
+                         f"{m.cls.short}.{bname}: inside the loop over {loop} the whole dictionary at {ptxt} is assigned anew on every "
+                         f"iteration (the target does not depend on the loop variable): only the last iteration's key survives, the "
+                         f"other keys the space declares are missing")
     ctx.floor("R2.1", "space/view pairs compared", n_pairs, 30)
 
 
@@ -170,6 +176,14 @@ def r2_2(ctx: Ctx, om: ObsModel) -> None:
                             raise AnalysisError(f"R2.2: cannot evaluate {m.cls.short} leaf {path_text(p)} "
                                                 f"({unparse(le.expr)[:80]}): {I.unknown[0]}")
                         lo_ok, hi_ok = b_le((None, 0.0), I.lo), b_le(I.hi, top)
+                        if hi_ok is None and lo_ok and I.hi[0] is not None and top[0] is not None and I.hi[0] != top[0]:
+                            # the value is bounded by one configured size, the space by another: nothing relates the two lists,
+                            # so some configuration (longer first list) puts the value outside the space
+                            ctx.fail("R2.2", key, where,
+                                     f"{m.cls.short}.{vname}: the value ranges up to {b_text(I.hi)} but the space is Discrete({unparse(nexpr)}) = "
+                                     f"[0, {b_text(top)}]: the two are sized by different configured lists ({I.hi[0]} vs {top[0]}), so a "
+                                     f"scenario where the first is longer than the second takes the observation out of its space")
+                            continue
                         if lo_ok is None or hi_ok is None:
                             raise AnalysisError(f"R2.2: bounds {I.text()} of {m.cls.short} leaf {path_text(p)} are not comparable "
                                                 f"with Discrete({unparse(nexpr)})")
